@@ -333,6 +333,25 @@ public class Host {
         return str(canon(d));
     }
 
+    static long mix(long seed, long idx) {
+        long z = seed * 0x9E3779B97F4A7C15L + (idx + 1) * 0xBF58476D1CE4E5B9L;
+        z = (z ^ (z >>> 30)) * 0xBF58476D1CE4E5B9L;
+        z = (z ^ (z >>> 27)) * 0x94D049BB133111EBL;
+        return z ^ (z >>> 31);
+    }
+
+    /** deterministic pseudo-random integer in 0..n-1 */
+    public static Value RandInt(Value seed, Value idx, Value n) {
+        long z = mix(((IntValue) seed).val, ((IntValue) idx).val);
+        int m = ((IntValue) n).val;
+        return IntValue.gen((int) Long.remainderUnsigned(z, m));
+    }
+
+    /** the integer given by -Dverif.seed (default 1): VERIF_SEED reaches the specification this way */
+    public static Value SeedProp() {
+        return IntValue.gen(Integer.parseInt(System.getProperty("verif.seed", "1")) & 0xfffff);
+    }
+
     /** exact decimal digits of (x + nextUp(x))/2 for a finite positive double, as ASCII code points,
      *  with `bump` in {-1,0,1}: one unit in a far-away last place added/subtracted */
     public static Value HalfwayText(Value a, Value bump) {
@@ -395,7 +414,7 @@ public class Host {
             if (out == null) {
                 String p = System.getProperty("verif.out");
                 if (p == null) p = "emit.ndjson";
-                out = new BufferedWriter(new FileWriter(p, true), 1 << 20);
+                out = new BufferedWriter(new java.io.OutputStreamWriter(new java.io.FileOutputStream(p, true), java.nio.charset.StandardCharsets.UTF_8), 1 << 20);
                 final BufferedWriter o = out;
                 Runtime.getRuntime().addShutdownHook(new Thread(() -> {
                     try { synchronized (Host.class) { o.flush(); } } catch (IOException e) { }
